@@ -194,6 +194,25 @@ func c06RestartSites(c *Ctx) {
 		}
 		seen[kind]++
 		r.OKd("C06/R5", "node.processMessage:Do("+evSigningRestart+"):"+kind, "restart site guarded by the "+kind+" state test", c.PosOf(call), "")
+		// feasibility: in every signing state both the DKG payload and the signing payload are present (set at
+		// event_dkg_init_process / event_signing_init and never cleared); under that assumption the site must stay reachable
+		var absent []ssax.Edge
+		for _, cd := range ssax.Conds(fn) {
+			if cd.Op != token.EQL && cd.Op != token.NEQ {
+				continue
+			}
+			for _, pr := range [][2]ssa.Value{{cd.X, cd.Y}, {cd.Y, cd.X}} {
+				pp := ssax.Path(pr[0])
+				if ssax.IsNilConst(ssax.Resolve(pr[1])) && (strings.HasSuffix(pp, ".DKGProposalPayload") || strings.HasSuffix(pp, ".SigningProposalPayload")) {
+					if e, ok := cd.EdgeWhere(token.EQL); ok {
+						absent = append(absent, e)
+					}
+				}
+			}
+		}
+		r.Check(ssax.ReachableAvoiding(fn, call, absent, nil), "C06/R5", "node.processMessage:Do("+evSigningRestart+"):"+kind+":feasible",
+			"the "+kind+" restart site is reachable for a round that has both a DKG and a signing payload (every signing round has)", c.PosOf(call),
+			"the restart is only reachable when DKGProposalPayload or SigningProposalPayload is nil, which never holds in a signing state: after a "+kind+" batch the round never returns to idle")
 	}
 	c06CollectedAlwaysRestarts(c, "C06/R5", fn)
 	for _, k := range []string{"collected", "error", "timeout"} {
